@@ -7,6 +7,7 @@ package main
 import (
 	"bytes"
 	"context"
+	"encoding/json"
 	goerr "errors"
 	"fmt"
 	"github.com/gogo/protobuf/types"
@@ -660,6 +661,14 @@ func piiFreeOutputs(e error) *safeOutputs {
 		sort.Strings(keys)
 		for _, k := range keys {
 			s.add("sentry extra "+k, k+"\n"+fmt.Sprint(extras[k]))
+		}
+		// every other field of the event (tags, extra, contexts, user, fingerprint, breadcrumbs ...): whatever
+		// the report builder puts anywhere in the event leaves the process with it
+		if js, err := json.Marshal(ev); err == nil {
+			s.add("sentry event (all fields, JSON)", string(js))
+		}
+		for k, v := range ev.Tags {
+			s.add("sentry event tag "+k, k+"="+v)
 		}
 	}
 	return s
@@ -2284,8 +2293,19 @@ func init() {
 				o.fail(why, "", detail)
 				return
 			}
+			if why, detail := errorfVerbForms(); why != "" {
+				o.evals++
+				o.fail(why, "", detail)
+				return
+			}
 		}
 		if o.e == nil {
+			return
+		}
+		// targets that are behaviour-only interfaces (they do not embed error): accepted by the standard As
+		o.evals++
+		if why, detail := behaviourTargets(o.e); why != "" {
+			o.fail(why, "", detail)
 			return
 		}
 		var nodes []error
@@ -3119,4 +3139,69 @@ func liveStrings(r *R) string {
 	}
 	walk(r)
 	return b.String()
+}
+
+// behaviourTargets: As into pointers to interfaces that do not embed error (Timeout() bool, ErrorHint() string,
+// Unwrap() []error): where the standard library finds a match the library finds one too (possibly an earlier one
+// behind a Cause()-only wrapper, which the standard library cannot see), and never panics.
+func behaviourTargets(e error) (why, detail string) {
+	defer func() {
+		if p := recover(); p != nil {
+			why, detail = "As panics on a target that is a pointer to a behaviour-only interface (the standard errors.As accepts it)", fmt.Sprint(p)
+		}
+	}()
+	{
+		var s, l interface{ Timeout() bool }
+		sb, lb := goerr.As(e, &s), errors.As(e, &l)
+		if sb && !lb {
+			return "As(*interface{Timeout() bool}) disagrees with the standard errors.As", fmt.Sprintf("std %v %T, lib %v %T", sb, s, lb, l)
+		}
+	}
+	{
+		var s, l interface{ ErrorHint() string }
+		sb, lb := goerr.As(e, &s), errors.As(e, &l)
+		if sb && !lb {
+			return "As(*interface{ErrorHint() string}) disagrees with the standard errors.As", fmt.Sprintf("std %v %T, lib %v %T", sb, s, lb, l)
+		}
+	}
+	{
+		var s, l interface{ Unwrap() []error }
+		sb, lb := goerr.As(e, &s), errors.As(e, &l)
+		if sb && !lb {
+			return "As(*interface{Unwrap() []error}) disagrees with the standard errors.As", fmt.Sprintf("std %v %T, lib %v %T", sb, s, lb, l)
+		}
+	}
+	return "", ""
+}
+
+// errorfVerbForms: errors.Errorf / Newf wrap what fmt.Errorf wraps, for every way fmt accepts the w verb
+// (explicit argument index, flags, width): the standard Is that holds for fmt.Errorf(format, args...) holds for the
+// library's Is on errors.Errorf(format, args...), and the two have a cause together.  (The texts are not compared:
+// with a flag the library renders the operand like %+v, i.e. with its details; C14 is about Is / As / Unwrap.)
+func errorfVerbForms() (string, string) {
+	sentinel := goerr.New("sentinel cause")
+	other := goerr.New("other")
+	for _, c := range []struct {
+		f    string
+		args []interface{}
+	}{
+		{"plain: %w", []interface{}{sentinel}},
+		{"indexed: %[2]w after %[1]s", []interface{}{"x", sentinel}},
+		{"flag: %+w", []interface{}{sentinel}},
+		{"width: %-5w|", []interface{}{sentinel}},
+		{"indexed first: %[1]w and %[2]v", []interface{}{sentinel, other}},
+	} {
+		std := fmt.Errorf(c.f, c.args...)
+		lib := errors.Errorf(c.f, c.args...)
+		if goerr.Is(std, sentinel) && !errors.Is(lib, sentinel) {
+			return "fmt.Errorf wraps the operand of the w verb in " + c.f + " (standard Is finds it), errors.Errorf does not", fmt.Sprintf("%+v", lib)
+		}
+		if goerr.Is(std, sentinel) && !goerr.Is(lib, sentinel) {
+			return "the standard Is finds the w operand in fmt.Errorf(" + c.f + ") and not in errors.Errorf of the same", ""
+		}
+		if (goerr.Unwrap(std) != nil) != (errors.UnwrapAll(lib) != lib) {
+			return "errors.Errorf(" + c.f + ") has a cause exactly when fmt.Errorf has one: violated", ""
+		}
+	}
+	return "", ""
 }
